@@ -3,7 +3,7 @@
 import json, os, glob
 
 root = "/verif/seeded"
-rounds = {"r1": [], "r2": [], "r3": [], "r4": []}
+rounds = {"r1": [], "r2": [], "r3": [], "r4": [], "r5": []}
 for d in sorted(glob.glob(f"{root}/*/meta.json")):
     name = os.path.basename(os.path.dirname(d))
     m = json.load(open(d))
@@ -26,9 +26,10 @@ titles = {
     "r2": "Round 2 (40 changes; directories `r2-<ID>-<n>`; agents told which ideas were used in round 1)",
     "r3": "Round 3 (32 changes; directories `r3-<ID>-<n>`; agents told which ideas were used in rounds 1 and 2)",
     "r4": "Round 4 (8 changes for the properties with the lowest first-contact rates; directories `r4-<ID>-<n>`)",
+    "r5": "Round 5 (3 changes, session 3; directories `r5-<ID>-<n>`; a fourth agent, for C19, found no change left that is valid, realistic and new)",
 }
 tot = 0
-for rnd in ("r1", "r2", "r3", "r4"):
+for rnd in ("r1", "r2", "r3", "r4", "r5"):
     items = rounds.get(rnd, [])
     if not items:
         continue
